@@ -281,6 +281,127 @@ fn writer_bool_case(rep: &mut Report, v: bool) {
     rep.hist("classes", "writer-boolean");
 }
 
+/// ENUMERATED types of a given size (const generic): every index below N is valid, N and above is not
+#[derive(Debug, PartialEq, Clone, Copy)]
+struct Sized<const N: u64>(u64);
+impl<const N: u64> common::Constraint for Sized<N> {
+    const TAG: Tag = Tag::DEFAULT_ENUMERATED;
+}
+impl<const N: u64> enumerated::Constraint for Sized<N> {
+    const NAME: &'static str = "Sized";
+    const VARIANT_COUNT: u64 = N;
+    const STD_VARIANT_COUNT: u64 = N;
+    fn to_choice_index(&self) -> u64 {
+        self.0
+    }
+    fn from_choice_index(index: u64) -> Option<Self> {
+        if index < N {
+            Some(Sized(index))
+        } else {
+            None
+        }
+    }
+}
+
+fn sized_enum_case<const N: u64>(rep: &mut Report, idx: u64) {
+    rep.eval();
+    let wit = json!({"op": "BasicWriter/BasicReader enumerated", "variants": N, "idx": idx});
+    let mut w = DER::writer(Vec::<u8>::new());
+    match guarded(|| enumerated::Enumerated::<Sized<N>>::write_value(&mut w, &Sized::<N>(idx))) {
+        Ok(Ok(())) => {}
+        Ok(Err(_)) => return rep.violation("c20:writer:enumerated:sized:err", wit),
+        Err(p) => return rep.violation(&format!("c20:writer:enumerated:sized:{}", p.signature()), wit),
+    }
+    let mut buf = w.into_inner();
+    let n = buf.len();
+    buf.extend_from_slice(&SENTINEL);
+    let mut r = DER::reader(&buf[..]);
+    match guarded(|| enumerated::Enumerated::<Sized<N>>::read_value(&mut r)) {
+        Ok(Ok(x)) => {
+            if x.0 != idx {
+                rep.violation("c20:enumerated:sized:value-differs", json!({"case": wit, "read": x.0, "octets": hex(&buf[..n])}));
+            } else if r.into_inner() != SENTINEL {
+                rep.violation("c20:enumerated:sized:bytes-consumed", wit);
+            }
+        }
+        Ok(Err(_)) => rep.violation("c20:reader:enumerated:sized:valid-index-rejected", json!({"case": wit, "octets": hex(&buf[..n])})),
+        Err(p) => rep.violation(&format!("c20:reader:enumerated:sized:{}", p.signature()), wit),
+    }
+    rep.distinct(hash_str("sized-enum") ^ idx ^ N << 32);
+    rep.hist("classes", &format!("sized-enumerated:{}-variants", N));
+}
+
+fn sized_enum_family<const N: u64>(rep: &mut Report) {
+    let mut idx: Vec<u64> = vec![0, 1, 2, 127, 128, 129, 255, 256, 257, 32767, 32768, 65535, 65536, 8388607, 8388608, N / 2, N - 1, N.saturating_sub(2)];
+    idx.retain(|i| *i < N);
+    idx.sort();
+    idx.dedup();
+    for i in idx {
+        sized_enum_case::<N>(rep, i);
+    }
+}
+
+/// `std::io::Read` implementations that hand out the bytes in pieces: the primitives must use read_exact semantics
+struct Piecewise<'a> {
+    data: &'a [u8],
+    piece: usize,
+}
+impl std::io::Read for Piecewise<'_> {
+    fn read(&mut self, buf: &mut [u8]) -> std::io::Result<usize> {
+        let n = buf.len().min(self.piece).min(self.data.len());
+        buf[..n].copy_from_slice(&self.data[..n]);
+        self.data = &self.data[n..];
+        Ok(n)
+    }
+}
+
+fn piecewise_case(rep: &mut Report, v: i64, u: u64, len: u64) {
+    use std::io::Read;
+    // the writer's bytes for: INTEGER v, a raw length, INTEGER (u64) u
+    let mut w = DER::writer(Vec::<u8>::new());
+    if !matches!(guarded(|| numbers::Integer::<i64, I64C>::write_value(&mut w, &v)), Ok(Ok(()))) {
+        return;
+    }
+    let mut buf = w.into_inner();
+    let _ = buf.write_length(len);
+    let mut w = DER::writer(buf);
+    if !matches!(guarded(|| numbers::Integer::<u64, U64C>::write_value(&mut w, &u)), Ok(Ok(()))) {
+        return;
+    }
+    let buf = w.into_inner();
+    let expect = |rep: &mut Report, how: &str, got: Result<(i64, u64, u64), String>| {
+        rep.eval();
+        match got {
+            Ok(x) if x == (v, len, u) => rep.hist("classes", "piecewise-reader"),
+            Ok(x) => rep.violation(&format!("c20:piecewise-reader:{}:values-differ", how), json!({"v": v, "len": len, "u": u, "read": format!("{:?}", x), "octets": hex(&buf)})),
+            Err(e) => rep.violation(&format!("c20:piecewise-reader:{}:{}", how, e), json!({"v": v, "len": len, "u": u, "octets": hex(&buf)})),
+        }
+    };
+    let read_all = |r: &mut dyn Read| -> Result<(i64, u64, u64), String> {
+        let mut r = r;
+        let a = {
+            let mut rd = DER::reader(&mut r);
+            numbers::Integer::<i64, I64C>::read_value(&mut rd).map_err(|_| "err:first-integer".to_string())?
+        };
+        let l = r.read_length().map_err(|_| "err:length".to_string())?;
+        let b = {
+            let mut rd = DER::reader(&mut r);
+            numbers::Integer::<u64, U64C>::read_value(&mut rd).map_err(|_| "err:second-integer".to_string())?
+        };
+        Ok((a, l, b))
+    };
+    for piece in [1usize, 2, 3, 5] {
+        let got = guarded(|| read_all(&mut Piecewise { data: &buf, piece })).unwrap_or_else(|p| Err(p.signature()));
+        expect(rep, "pieces", got);
+    }
+    // two chained buffers with the seam at every position
+    for seam in 1..buf.len() {
+        let got = guarded(|| read_all(&mut (&buf[..seam]).chain(&buf[seam..]))).unwrap_or_else(|p| Err(p.signature()));
+        expect(rep, "chain", got);
+    }
+    rep.distinct(hash_str("piecewise") ^ v as u64 ^ u.rotate_left(17) ^ len << 40);
+}
+
 fn writer_enum_case(rep: &mut Report, idx: u64) {
     rep.eval();
     let wit = json!({"op": "BasicWriter::write_enumerated", "idx": idx});
@@ -310,7 +431,7 @@ fn writer_enum_case(rep: &mut Report, idx: u64) {
 }
 
 pub fn run(rep: &mut Report, tier: &str, seed: u64, shard: u64, nshards: u64, miri: bool) {
-    rep.rule = "lengths: every value within +-300 of 2^(7k) and 2^(8k) (k<=9, clipped to u64) + random; identifiers: 4 classes x numbers 0..=30; booleans: all 256 content octets on the read side; integers: boundary families 2^k+-1, i64/u64 extremes, random, through write_integer_* + read_integer_* and through BasicWriter/BasicReader {number, boolean, enumerated}; every value followed by sentinel bytes. distinct = distinct (operation, value)".into();
+    rep.rule = "lengths: every value within +-300 of 2^(7k) and 2^(8k) (k<=9, clipped to u64) + random; identifiers: 4 classes x numbers 0..=30; booleans: all 256 content octets on the read side; integers: boundary families 2^k+-1, i64/u64 extremes, random, through write_integer_* + read_integer_* and through BasicWriter/BasicReader {number, boolean, enumerated}; ENUMERATED types of 20 sizes (2 .. 2^32+1 variants, on both sides of every octet boundary of the last index) at their boundary indices; readers that deliver the written bytes in pieces (1/2/3/5 octets at a time, two chained buffers with the seam at every position); every value followed by sentinel bytes. distinct = distinct (operation, value)".into();
     let mine = |k: u64| k % nshards == shard;
     let mut rng = Rng::derive(seed, &["C20"], shard);
     let span: i128 = if miri { 3 } else { 300 };
@@ -378,6 +499,40 @@ pub fn run(rep: &mut Report, tier: &str, seed: u64, shard: u64, nshards: u64, mi
             int_i64_case(rep, v);
         }
     }
+    if mine(2) {
+        // ENUMERATED types of many sizes: 1..3 content octets, sizes whose last index has a bit length that is / is not a
+        // multiple of 8
+        sized_enum_family::<2>(rep);
+        sized_enum_family::<3>(rep);
+        sized_enum_family::<127>(rep);
+        sized_enum_family::<128>(rep);
+        sized_enum_family::<129>(rep);
+        sized_enum_family::<255>(rep);
+        sized_enum_family::<256>(rep);
+        sized_enum_family::<257>(rep);
+        sized_enum_family::<300>(rep);
+        sized_enum_family::<1000>(rep);
+        sized_enum_family::<32768>(rep);
+        sized_enum_family::<32769>(rep);
+        sized_enum_family::<40000>(rep);
+        sized_enum_family::<65536>(rep);
+        sized_enum_family::<65537>(rep);
+        sized_enum_family::<70000>(rep);
+        sized_enum_family::<8388608>(rep);
+        sized_enum_family::<8388609>(rep);
+        sized_enum_family::<16777217>(rep);
+        sized_enum_family::<4294967297>(rep);
+    }
+    if mine(3) && !miri {
+        // readers that deliver the bytes in pieces
+        for (v, u, len) in [(0i64, 0u64, 0u64), (1, 1, 1), (-1, 255, 127), (-129, 256, 128), (32767, 65535, 258), (-32769, 65536, 65535), (i64::MAX, u64::MAX, u64::MAX), (i64::MIN, 1 << 63, 1 << 32), (0x0102030405060708, 0x0807060504030201, 0x010203)] {
+            piecewise_case(rep, v, u, len);
+        }
+        for _ in 0..40 {
+            let (v, u, len) = (rng.next_u64() as i64 >> rng.below(64), rng.next_u64() >> rng.below(64), rng.next_u64() >> rng.below(64));
+            piecewise_case(rep, v, u, len);
+        }
+    }
     let nrand = if miri { 200 } else if tier == "quick" { 200_000 / nshards } else { 1_000_000 / nshards };
     for _ in 0..nrand {
         let shift = rng.below(64);
@@ -392,7 +547,7 @@ pub fn run(rep: &mut Report, tier: &str, seed: u64, shard: u64, nshards: u64, mi
         }
     }
     rep.exhaustive = true;
-    for cell in ["length", "identifier", "boolean-read", "integer_i64", "integer_u64", "writer-number", "writer-enumerated"] {
+    for cell in ["length", "identifier", "boolean-read", "integer_i64", "integer_u64", "writer-number", "writer-enumerated", "sized-enumerated", "piecewise-reader"] {
         let n: u64 = rep
             .hist
             .get("classes")
